@@ -14,6 +14,7 @@ Every case runs in a freshly forked child of an executor that never calls into C
 process-wide lazily written state (cache slots, memoised class pointers, header types) is cold at the
 start of every case and a case is a pure function of (built code, case).
 """
+import os
 import concurrent.futures as cf
 from hypothesis import strategies as st
 from .. import build
@@ -513,6 +514,8 @@ def _boundary_cases():
 
 
 def extra_phase(ctx, tier, stats, sample_fn):
+    if os.environ.get("VERIF_C08_ENUM", "1") == "0":     # sensitivity experiments on the generated part only
+        return {"fails": [], "extra": {"static_matrix_exhaustive": False, "enumerated_part": "skipped (VERIF_C08_ENUM=0)"}}
     fails = []
     cases = [{"kind": "static", "type": t, "order": o} for o in ORDERS for t in TYPES]
     nw = 8
